@@ -28,13 +28,13 @@ def run(ctx):
         cases = c01.replay_cases(ctx.replay) if any("pre" in r for r in recs) else []
         inv = [{"id": r.get("id"), "prog": r["prog"], "limits": [r["limit"]]} for r in recs if r.get("k") == "invoke"]
     else:
-        cases = pvmgen.gen_random_cases(rng, 25 if q else 1500)
-        part, total = c01.partition_cases(ctx, c01.pick_ops(ctx, 4) if q else c01.pick_ops(ctx, 40), 50 if q else 4000, tag="c04")
+        cases = pvmgen.gen_random_cases(rng, 70 if q else 1500)
+        part, total = c01.partition_cases(ctx, c01.pick_ops(ctx, 4) if q else c01.pick_ops(ctx, 40), 150 if q else 4000, tag="c04")
         cases += part
         for c in cases:
             c["gases"] = list(range(0, 15)) if not c["id"].startswith("p") else [0, 1, 2, 3, 4]
         inv = []
-        for i in range(30 if q else 3000):
+        for i in range(90 if q else 3000):
             prog, _ = pvmgen.random_program(rng, clean=rng.n(4) != 0, ops=pvmgen.NOJUMPIND, forward=True)   # loop-free: large limits must terminate
             n_guess = len(prog["code"])
             lims = ([0, 1, 3, 8, n_guess, 400, 401] if q else [0, 1, 2, 3, 5, 8, 13, 21, 34, n_guess, 60, 399, 400, 401]) + BIG + [rng.u64(), rng.u64() | (1 << 63)]
